@@ -78,10 +78,21 @@ class MasterScheduler(BaseScheduler):
 
     async def _do_initial_tick(self):
         """Performs the initial tick of the system."""
+        self._mark_time(self._initial_time)
         await self.ticker(
             self._initial_time,
             self.ticker.components,
         )
+        self._mark_time(self.ticker.time)
+
+    def _mark_time(self, time: SimTime) -> None:
+        """Records the simulation time reached and the real time at which it was.
+
+        Interrupts are stamped relative to this pair, so it is only advanced once a
+        tick has completed: an interrupt raised while a tick is in progress is stamped
+        from the end of the previous tick, not from the time of the running one.
+        """
+        self.last_tick_time = time
         self.last_time = time_ns()
 
     async def _do_tick(self):
@@ -104,7 +115,7 @@ class MasterScheduler(BaseScheduler):
         for component in components:
             del self.wakeups[component]
         await self.ticker(when, {component for component in components})
-        self.last_time = time_ns()
+        self._mark_time(self.ticker.time)
 
     async def schedule_interrupt(self, source: ComponentID) -> None:
         """Schedules the interrupt of a component immediately.
@@ -120,7 +131,7 @@ class MasterScheduler(BaseScheduler):
         self.add_wakeup(
             source,
             SimTime(
-                self.ticker.time
+                self.last_tick_time
                 + int((time_ns() - self.last_time) * self.simulation_speed)
             ),
         )
